@@ -76,6 +76,8 @@ def wire_forms(m):
         except Exception as ex:  # noqa: BLE001
             out["json_exc"] = type(ex).__name__
     else:
+        # the members the message object itself holds (what was constructed)
+        out["obj"] = view_of(m)
         forms = {}
         try:
             forms["dump"] = m.model_dump(exclude_none=True)
@@ -85,6 +87,12 @@ def wire_forms(m):
             forms["json"] = fast_json.loads(m.model_dump_json(exclude_none=True))
         except Exception as ex:  # noqa: BLE001
             out["json_exc"] = type(ex).__name__
+        if "dump" in forms:
+            # the stdio writer's two-pass path: json.dumps(model_dump(exclude_none=True))
+            try:
+                forms["dumpjson"] = fast_json.loads(fast_json.dumps(forms["dump"]))
+            except Exception as ex:  # noqa: BLE001
+                out["dumpjson_exc"] = type(ex).__name__
     for k, w in forms.items():
         try:
             out[k] = {"wire": J.of_py(w), "parse": parse_view(w)}
@@ -220,6 +228,15 @@ def _msg_mod():
     return m
 
 
+def method_of(a):
+    """the method argument: a plain string, or (args["method_enum"]) the MessageMethod member of that name"""
+    if a.get("method_enum"):
+        from chuk_mcp.protocol.messages.message_method import MessageMethod
+
+        return MessageMethod[a["method_enum"]]
+    return s_(a["method"])
+
+
 def _obj(t):
     return None if t is None else J.to_py(t)
 
@@ -229,11 +246,11 @@ def d_create_request(a):
     kw = {}
     if a.get("tok") is not None:
         kw["progress_token"] = idval(a["tok"])
-    return [m.create_request(s_(a["method"]), copy.deepcopy(_obj(a.get("params"))), id=idval(a.get("id")), **kw)]
+    return [m.create_request(method_of(a), copy.deepcopy(_obj(a.get("params"))), id=idval(a.get("id")), **kw)]
 
 
 def d_create_notification(a):
-    return [_msg_mod().create_notification(s_(a["method"]), _obj(a.get("params")))]
+    return [_msg_mod().create_notification(method_of(a), _obj(a.get("params")))]
 
 
 def d_create_response(a):
@@ -245,11 +262,11 @@ def d_create_error_response(a):
 
 
 def d_legacy_create_request(a):
-    return [_msg_mod().JSONRPCMessage.create_request(s_(a["method"]), _obj(a.get("params")), id=idval(a.get("id")))]
+    return [_msg_mod().JSONRPCMessage.create_request(method_of(a), _obj(a.get("params")), id=idval(a.get("id")))]
 
 
 def d_legacy_create_notification(a):
-    return [_msg_mod().JSONRPCMessage.create_notification(s_(a["method"]), _obj(a.get("params")))]
+    return [_msg_mod().JSONRPCMessage.create_notification(method_of(a), _obj(a.get("params")))]
 
 
 def d_legacy_create_response(a):
@@ -272,7 +289,7 @@ def d_send_message(a):
             kw["message_id"] = s_(a["mid"])
         if a.get("progress"):
             kw["progress_callback"] = cb
-        await send_message(r, w, s_(a["method"]), copy.deepcopy(_obj(a.get("params"))), timeout=0.01, **kw)
+        await send_message(r, w, method_of(a), copy.deepcopy(_obj(a.get("params"))), timeout=0.01, **kw)
 
     return run_async(go)
 
@@ -328,6 +345,60 @@ class UnknownEmitter(Exception):
     pass
 
 
+class AppError(Exception):
+    """an application exception type (a BaseException subclass that is an Exception)"""
+
+    def __init__(self, *args, detail=None):
+        super().__init__(*args)
+        self.detail = detail
+
+
+EXC_KINDS = ["runtime", "value", "key-tuple", "unicode-decode", "object-arg", "bytes-arg", "set-arg", "no-args",
+             "app", "app-object", "os", "nested", "mixed-args", "exc-arg"]
+
+
+def make_exc(kind, text):
+    """the spread of exceptions a registered handler / tool / resource may raise"""
+    if kind in (None, "runtime"):
+        return RuntimeError(text)
+    if kind == "value":
+        return ValueError(text)
+    if kind == "key-tuple":
+        return KeyError((1, 2))
+    if kind == "unicode-decode":
+        try:
+            b"\xff\xfe".decode("utf-8")
+        except UnicodeDecodeError as ex:
+            return ex
+    if kind == "object-arg":
+        return RuntimeError(object())
+    if kind == "bytes-arg":
+        return RuntimeError(text, b"\x00\xff")
+    if kind == "set-arg":
+        return ValueError({1, 2})
+    if kind == "no-args":
+        return RuntimeError()
+    if kind == "app":
+        return AppError(text, 3, detail={"k": None})
+    if kind == "app-object":
+        return AppError(AppError)
+    if kind == "os":
+        return OSError(2, text)
+    if kind == "nested":
+        try:
+            try:
+                raise KeyError(b"k")
+            except KeyError as inner:
+                raise RuntimeError(text) from inner
+        except RuntimeError as ex:
+            return ex
+    if kind == "mixed-args":
+        return ValueError(text, 1, 1.5, None, True, (1, "a"), [None])
+    if kind == "exc-arg":
+        return RuntimeError(ValueError(text))
+    raise ValueError(f"unknown exception kind {kind}")
+
+
 def _handler():
     from chuk_mcp.server.protocol_handler import ProtocolHandler
     from chuk_mcp.protocol.types.info import ServerInfo
@@ -373,7 +444,7 @@ def d_handle_message(a):
         h.register_method(s_(a["method"]), custom)
     elif sc == "custom-raises":
         async def custom(message, session_id):  # noqa: F811
-            raise RuntimeError(s_(a.get("text") or [98, 111, 111, 109]))
+            raise make_exc(a.get("exc"), s_(a.get("text") or [98, 111, 111, 109]))
         h.register_method(s_(a["method"]), custom)
     if sc == "no-method":
         from chuk_mcp.protocol.messages.json_rpc_message import parse_message
@@ -404,13 +475,13 @@ def d_mcpserver(a):
         return payload
 
     async def tool_bad(**kw):
-        raise RuntimeError(text)
+        raise make_exc(a.get("exc"), text)
 
     async def res_ok():
         return text
 
     async def res_bad():
-        raise RuntimeError(text)
+        raise make_exc(a.get("exc"), text)
 
     srv.register_tool("ok", tool_ok, {"type": "object"}, description=text)
     srv.register_tool("bad", tool_bad, {"type": "object"})
@@ -439,7 +510,7 @@ def d_batch_item_error(a):
     text = s_(a.get("text") or [120])
 
     def bad(item):
-        raise RuntimeError(text)
+        raise make_exc(a.get("exc"), text)
 
     items = [{"jsonrpc": "2.0", "id": idval(a.get("id")), "method": "ping"}]
     if a.get("opt"):
@@ -474,7 +545,7 @@ def literal_env(a):
     mid = idval(a.get("id"))
     payload = _obj(a.get("payload")) if a.get("payload") is not None else {}
     return {
-        "message_id": mid, "request_id": mid, "error_text": text, "response": _Resp(text), "e": RuntimeError(text),
+        "message_id": mid, "request_id": mid, "error_text": text, "response": _Resp(text), "e": make_exc(a.get("exc"), text),
         "self": _Self(text), "params": _Params(payload), "user_data": payload,
         "item": ({"id": mid} if not a.get("opt") else text),
         "str": str, "isinstance": isinstance, "dict": dict,
@@ -497,22 +568,73 @@ def literal_driver(node, path):
 
 
 # -- the transports' serialisers -----------------------------------------------------------------
+DIRECT_INNERS = ["direct-request", "direct-notification", "direct-response", "direct-error", "direct-legacy-request",
+                 "direct-legacy-notification", "direct-legacy-response", "direct-legacy-error", "validated-request",
+                 "validated-legacy-response"]
+CREATED_INNERS = ["request", "notification", "response", "error", "legacy-request", "legacy-response", "legacy-error", "dict",
+                  "parsed-request", "parsed-notification", "parsed-response", "parsed-error"]
+
+
 def _inner(a):
-    """the message a transport scenario sends: built by one of the constructors"""
+    """the messages a transport scenario sends: products of the constructors, instances built DIRECTLY
+    from the public envelope classes relying on their defaults (no `jsonrpc` argument), dicts, messages
+    that went through parse_message / model_validate, or whatever another emitter case emits"""
     kind = a.get("inner", "request")
+    m = _msg_mod()
+    if isinstance(kind, dict):  # {"emitter": name, "args": {...}}: route that emitter's products
+        ent = drivers().get(kind["emitter"])
+        if ent is None:
+            raise UnknownEmitter("inner emitter without a driver")
+        r = ent[1](kind.get("args") or {})
+        return list(r[0] if isinstance(r, tuple) else r)
+    idv = idval(a.get("id"))
+    params = copy.deepcopy(_obj(a.get("params")))
+    result = _obj(a.get("result"))
+    err = {"code": a.get("code", 1), "message": s_(a["message"]) if a.get("message") is not None else "x"}
+    if a.get("data") is not None:
+        err["data"] = _obj(a["data"])
     if kind == "request":
-        return d_create_request(a)[0]
+        return d_create_request(a)
     if kind == "notification":
-        return d_create_notification(a)[0]
+        return d_create_notification(a)
     if kind == "response":
-        return d_create_response(a)[0]
+        return d_create_response(a)
     if kind == "error":
-        return d_create_error_response(a)[0]
+        return d_create_error_response(a)
     if kind == "legacy-request":
-        return d_legacy_create_request(a)[0]
+        return d_legacy_create_request(a)
+    if kind == "legacy-response":
+        return d_legacy_create_response(a)
+    if kind == "legacy-error":
+        return d_legacy_create_error_response(a)
     if kind == "dict":
-        m = d_create_request(a)[0]
-        return m.model_dump(exclude_none=True)
+        return [d_create_request(a)[0].model_dump(exclude_none=True)]
+    if kind.startswith("parsed-"):
+        src = {"parsed-request": d_create_request, "parsed-notification": d_create_notification,
+               "parsed-response": d_create_response, "parsed-error": d_create_error_response}[kind](a)[0]
+        return [m.parse_message(src.model_dump(exclude_none=True))]
+    # directly constructed, relying on the declared defaults
+    opt = {} if params is None else {"params": params}
+    if kind == "direct-request":
+        return [m.JSONRPCRequest(id=idv, method=method_of(a), **opt)]
+    if kind == "direct-notification":
+        return [m.JSONRPCNotification(method=method_of(a), **opt)]
+    if kind == "direct-response":
+        return [m.JSONRPCResponse(id=idv, result={} if result is None else result)]
+    if kind == "direct-error":
+        return [m.JSONRPCError(id=idv, error=err)]
+    if kind == "direct-legacy-request":
+        return [m.JSONRPCMessage(id=idv, method=method_of(a), **opt)]
+    if kind == "direct-legacy-notification":
+        return [m.JSONRPCMessage(method=method_of(a), **opt)]
+    if kind == "direct-legacy-response":
+        return [m.JSONRPCMessage(id=idv, result=result if isinstance(result, dict) else {})]
+    if kind == "direct-legacy-error":
+        return [m.JSONRPCMessage(id=idv, error=err)]
+    if kind == "validated-request":
+        return [m.JSONRPCRequest.model_validate({"id": idv, "method": str(method_of(a).value if a.get("method_enum") else method_of(a)), **opt})]
+    if kind == "validated-legacy-response":
+        return [m.JSONRPCMessage.model_validate({"id": idv, "result": result if isinstance(result, dict) else {}})]
     raise ValueError(kind)
 
 
@@ -524,7 +646,7 @@ def d_stdio_writer(a):
     from chuk_mcp.protocol import fast_json
 
     mod = sys.modules.get("chuk_mcp.transports.stdio.stdio_client") or importlib.import_module("chuk_mcp.transports.stdio.stdio_client")
-    msg = _inner(a)
+    msgs = _inner(a)
     chunks = []
 
     class Stdin:
@@ -542,12 +664,13 @@ def d_stdio_writer(a):
 
     async def main():
         c = mod.StdioClient(StdioParameters(command="true", args=[]))
-        c._outgoing_send, c._outgoing_recv = anyio.create_memory_object_stream(10)
+        c._outgoing_send, c._outgoing_recv = anyio.create_memory_object_stream(100)
         c._incoming_send, c._incoming_recv = anyio.create_memory_object_stream(10)
         c._notify_send, c.notifications = anyio.create_memory_object_stream(10)
         c._streams_initialized = True
         c.process = Proc()
-        await c._outgoing_send.send(msg)
+        for msg in msgs:
+            await c._outgoing_send.send(msg)
         await c._outgoing_send.aclose()
         await c._stdin_writer()
 
@@ -593,7 +716,7 @@ def d_http_post(a):
     from chuk_mcp.transports.http.parameters import StreamableHTTPParameters
 
     mod = importlib.import_module("chuk_mcp.transports.http.transport")
-    msg = _inner(a)
+    msgs = _inner(a)
 
     def respond(request):
         return httpx.Response(202)
@@ -602,7 +725,8 @@ def d_http_post(a):
 
     async def main():
         t = mod.StreamableHTTPTransport(StreamableHTTPParameters(url="http://verif.invalid/mcp"))
-        await t._send_message_internal(msg)
+        for msg in msgs:
+            await t._send_message_internal(msg)
 
     from . import vloop
     mod.httpx.AsyncClient = Client
@@ -623,7 +747,7 @@ def d_sse_post(a):
     from chuk_mcp.transports.sse.parameters import SSEParameters
 
     mod = importlib.import_module("chuk_mcp.transports.sse.transport")
-    msg = _inner(a)
+    msgs = _inner(a)
     seen = []
 
     def handler(request):
@@ -638,7 +762,8 @@ def d_sse_post(a):
         t._send_client = httpx.AsyncClient(transport=httpx.MockTransport(handler))
         t._message_url = "http://verif.invalid/messages"
         try:
-            await t._send_message_via_http(msg)
+            for msg in msgs:
+                await t._send_message_via_http(msg)
         finally:
             await t._send_client.aclose()
 
